@@ -19,3 +19,37 @@ Proof. induction l; cbn; congruence. Qed.
 
 Lemma skipn_app_exact {A} (l r : list A) : skipn (length l) (l ++ r) = r.
 Proof. induction l; cbn; auto. Qed.
+
+Lemma skipn_skipn {A} (n m : nat) (l : list A) : skipn n (skipn m l) = skipn (m + n) l.
+Proof.
+  revert l. induction m as [|m IH]; intros l; cbn [skipn Nat.add]; [reflexivity|].
+  destruct l; [now rewrite skipn_nil|]. apply IH.
+Qed.
+
+Lemma nth_error_firstn {A} (l : list A) n i : i < n -> nth_error (firstn n l) i = nth_error l i.
+Proof.
+  revert n i. induction l as [|x t IH]; intros n i H.
+  - rewrite firstn_nil. reflexivity.
+  - destruct n as [|n]; [lia|]. destruct i as [|i]; cbn; [reflexivity|]. apply IH. lia.
+Qed.
+
+Lemma nth_error_skipn {A} (l : list A) n i : nth_error (skipn n l) i = nth_error l (n + i).
+Proof.
+  revert l. induction n as [|n IH]; intros l; cbn [skipn Nat.add]; [reflexivity|].
+  destruct l as [|x t]; [now destruct i|]. cbn. apply IH.
+Qed.
+
+Lemma Forall2_impl {A B} (P Q : A -> B -> Prop) l l' :
+  (forall a b, P a b -> Q a b) -> Forall2 P l l' -> Forall2 Q l l'.
+Proof. intros H F. induction F; constructor; auto. Qed.
+
+Lemma Forall2_nth_error {A B} (P : A -> B -> Prop) l l' k a :
+  Forall2 P l l' -> nth_error l k = Some a -> exists b, nth_error l' k = Some b /\ P a b.
+Proof.
+  intros F. revert k. induction F as [|x y l l' Hxy F IH]; intros [|k]; cbn; try discriminate.
+  - intros [= <-]. eauto.
+  - apply IH.
+Qed.
+
+Lemma Forall2_length {A B} (P : A -> B -> Prop) l l' : Forall2 P l l' -> length l = length l'.
+Proof. induction 1; cbn; auto. Qed.
